@@ -131,6 +131,16 @@ def treatRaw : List (Bytes × Bytes) → List RawRow → List RawRow
       else r :: treatRaw ((r.text, r.codeStr) :: seen) rs
     else r :: treatRaw seen rs
 
+/-- the rows a pack's collector looks at: `EntryCollector(std::move(syllabary))` has `build_syllabary = false`, and `CreateEntry`
+returns at the first syllable outside the fixed syllabary (entry_collector.cc:194-203) — before the word list, the entries or the
+entry count are touched.  Rows without a code never get there (they wait for the encoder). -/
+def packRows (syl : List Bytes) (rows : List RawRow) : List RawRow :=
+  rows.filter (fun r => r.codeStr.isEmpty || (tokens r.codeStr).all (fun s => syl.contains s))
+
+/-- `EntryCollector::Collect` of a pack (dict_compiler.cc:199-207): the collector starts from the primary table's syllabary -/
+def collectPack (syl : List Bytes) (rows : List RawRow) : Collector :=
+  (packRows syl rows).foldl collectRow { Collector.empty with syllabary := syl }
+
 /-- `syllable_to_id` of `DictCompiler::BuildTable`: the rank in the ascending syllabary -/
 def syllableId (syl : List Bytes) (s : Bytes) : Nat := syl.idxOf s
 
